@@ -27,6 +27,13 @@ class Ctx:
         self.marks = []
         self.p = params
 
+    def respin(self, scope):
+        """fresh competitors for operations that are reached only after time has passed (the root spinners are done)"""
+        for j in range(len(self.counters)):
+            if self.done[j]:
+                self.done[j] = False
+                scope.do(spinner(self, j), volatile=True)
+
     def mark(self, label):
         self.marks.append((label, time.now, list(self.counters), list(self.done)))
 
@@ -307,6 +314,54 @@ _ticker(interval, 'interval0_steps')
 _ticker(delay, 'delay0_steps')
 
 
+@op('interval_body_used_whole_period')
+async def _(c):
+    # the loop body took exactly the period: the next step is due at once
+    p = c.p['thr']
+    n = 0
+    async with Scope() as s:
+        async for _ in interval(p):
+            if n:
+                c.mark('step%d:e' % n)
+            n += 1
+            if n >= 4:
+                break
+            await (time + p)
+            c.respin(s)
+            c.mark('step%d:s' % n)
+
+
+async def _guard(cond):
+    async with until(cond):
+        await usim.eternity
+
+
+async def _set_later(f, d):
+    await (time + d)
+    await f.set()
+
+
+@op('await_watched_connective_turned_true_in_this_step')
+async def _(c):
+    # the same connective object is being waited for by someone else (until) and has just become true:
+    # its helper activity has not reacted yet
+    for label, mk, turns in (('or', lambda a, b: a | b, 1), ('and', lambda a, b: a & ~b, 1),
+                             ('nested', lambda a, b: (a & ~b) | b, 1), ('or_later', lambda a, b: a | b, 2),
+                             ('and_later', lambda a, b: a & ~b, 3)):
+        a, b = Flag(), Flag()
+        cond = mk(a, b)
+        async with Scope() as s:
+            s.do(_guard(cond), volatile=True)
+            s.do(_set_later(a, 1))
+            await (time + 1)
+            for _ in range(turns):
+                await instant          # the setter runs in between
+            c.respin(s)
+            c.mark(label + ':s')
+            await cond
+            c.mark(label + ':e')
+
+
 @op('collect_nothing_and_finished')
 async def _(c):
     c.mark('nothing:s')
@@ -357,10 +412,12 @@ POSITIONS = ('root', 'child', 'until', 'lock', 'after_interrupt')
 
 
 async def spinner(c, j):
-    for _ in range(SPIN_TURNS):
-        c.counters[j] += 1
-        await instant
-    c.done[j] = True
+    try:
+        for _ in range(SPIN_TURNS):
+            c.counters[j] += 1
+            await instant
+    finally:
+        c.done[j] = True        # (also when a re-spawned, volatile spinner is closed with its scope)
 
 
 async def subject(c, name, position):
